@@ -84,6 +84,14 @@ def build(plan):
                                decision=plan["decision"], parent=plan["parent"])
 
 
+def _i(x):
+    """int() of a packet field, or the raw value when it is not a number (a missing field is a difference, not a crash)."""
+    try:
+        return int(x)
+    except (TypeError, ValueError):
+        return x
+
+
 def check(plan) -> Result:
     import zigpy.types as zt
 
@@ -119,8 +127,8 @@ def check(plan) -> Result:
             return r
         p = pk[0]
         data = bytes.fromhex(plan["data"])
-        got = dict(src_mode=p.src.addr_mode, src=int(p.src.address), src_ep=int(p.src_ep), dst_ep=int(p.dst_ep), tsn=int(p.tsn),
-                   profile=int(p.profile_id), cluster=int(p.cluster_id), data=bytes(p.data.serialize()), lqi=int(p.lqi), rssi=int(p.rssi))
+        got = dict(src_mode=p.src.addr_mode, src=_i(p.src.address), src_ep=_i(p.src_ep), dst_ep=_i(p.dst_ep), tsn=_i(p.tsn),
+                   profile=_i(p.profile_id), cluster=_i(p.cluster_id), data=bytes(p.data.serialize()), lqi=_i(p.lqi), rssi=_i(p.rssi))
         want = dict(src_mode=zt.AddrMode.NWK, src=plan["sender"], src_ep=plan["src_ep"], dst_ep=plan["dst_ep"], tsn=plan["aps_seq"],
                     profile=plan["profile"], cluster=plan["cluster"], data=data, lqi=plan["lqi"], rssi=plan["rssi"])
         for k in want:
@@ -244,8 +252,8 @@ def check_seq(plan) -> Result:
         r.bad("C13:receive-raises", f"{out['raised']}; plan {plan}")
         return r
     wp, wj, wl = out["want"]
-    got_p = [dict(src=int(p.src.address), src_ep=int(p.src_ep), dst_ep=int(p.dst_ep), tsn=int(p.tsn), profile=int(p.profile_id),
-                  cluster=int(p.cluster_id), data=bytes(p.data.serialize()), lqi=int(p.lqi), rssi=int(p.rssi),
+    got_p = [dict(src=_i(p.src.address), src_ep=_i(p.src_ep), dst_ep=_i(p.dst_ep), tsn=_i(p.tsn), profile=_i(p.profile_id),
+                  cluster=_i(p.cluster_id), data=bytes(p.data.serialize()), lqi=_i(p.lqi), rssi=_i(p.rssi),
                   dst=(p.dst.addr_mode, None if p.dst.addr_mode.name == "Broadcast" else int(p.dst.address))) for p in out["packets"]]
     if got_p != wp:
         k = next((i for i, (g, w) in enumerate(zip(got_p, wp)) if g != w), min(len(got_p), len(wp)))
